@@ -54,7 +54,7 @@ func init() {
 	reg("C13", ruleAliasTable, ruleFilesAreCombined, ruleSpellingErased, ruleShorthandTwins, ruleDocCommentSuffix, ruleTypeTags, ruleSchemaCanonical, rulePrunes(topoSortFiles, "V5", 2))
 	reg("C07", ruleStateMachine, ruleNoReturnBeforeStateGuard)
 	reg("C02", ruleJsonKinds, ruleUnionTagDecision, ruleKindTests, ruleOptionalFieldSymmetry, ruleJsonNamesAreModelNames)
-	reg("C14", rulePlan, ruleRecordOrder, ruleOptionalFieldSymmetry, ruleTrivialRecordTrait)
+	reg("C14", rulePlan, ruleRecordOrder, ruleOptionalFieldSymmetry, ruleTrivialRecordTrait, ruleMatlabExtentOrderAgrees)
 	reg("C10", rulePairAccess, ruleConstIndex(frontEndNoEvolution, "P2", 30), ruleMakeBounds, ruleErrorProvenance, ruleBreakInSwitchInLoop, rulePositions, ruleNodeLiteralsPositioned, ruleBigIndex, ruleAborts(frontEndNoEvolution, "P4", 25), ruleDecodeLoopLeavesOnError,
 		ruleE3(frontScope, "E3"), ruleCollectPackages, ruleBinaryOperatorTokens, ruleReflectiveWalkTerminates)
 	reg("C20", ruleWatchSerialised, ruleWatchRecovers, ruleChdirRestored, ruleWatchEveryEventSchedules, ruleWatchSurvivesErrors)
